@@ -22,6 +22,8 @@ func init() {
 		},
 		Run: runC22,
 		Controls: []Control{
+			{Name: "reject-returns-before-close-on-write-error", File: "protocols/bgp/server/fsm_open_sent.go", Old: "\tif s.fsm.con != nil {\n\t\ts.fsm.sendNotification(packet.OpenMessageError, errorSubCode)\n\t\ts.fsm.con.Close()\n\t}\n", New: "\tif s.fsm.con != nil {\n\t\tif err := s.fsm.sendNotification(packet.OpenMessageError, errorSubCode); err != nil {\n\t\t\treturn newIdleState(s.fsm), reason\n\t\t}\n\t\ts.fsm.con.Close()\n\t}\n", Expect: "open-reject-closes-connection"},
+			{Name: "role-conflict-flag-reassigned-per-capability", File: "protocols/bgp/server/fsm_open_sent.go", Old: "\tif s.fsm.peer.peerRoleAdvByPeer && s.fsm.peer.peerRoleRemote != cap.PeerRole {\n\t\ts.multiplePeerRolesRcvd = true\n\t}\n", New: "\ts.multiplePeerRolesRcvd = s.fsm.peer.peerRoleAdvByPeer && s.fsm.peer.peerRoleRemote != cap.PeerRole\n", Expect: "conflict-flag-is-a-latch"},
 			{Name: "four-octet-flag-survives-the-session", File: "protocols/bgp/server/fsm_open_sent.go", Old: "\ts.fsm.supports4OctetASN = false\n", New: "", Expect: "negotiated-state-reset-per-session"},
 			{Name: "role-remembered-across-sessions", File: "protocols/bgp/server/fsm_open_sent.go", Old: "\ts.fsm.peer.peerRoleAdvByPeer = false\n", New: "", Expect: "negotiated-state-reset-per-session"},
 			{Name: "only-first-capabilities-parameter", File: "protocols/bgp/server/fsm_open_sent.go", Old: "\t\ts.processCapabilities(optParam.Value.(packet.Capabilities))\n", New: "\t\ts.processCapabilities(optParam.Value.(packet.Capabilities))\n\t\treturn\n", Expect: "capability-walk-is-complete"},
@@ -37,6 +39,8 @@ func init() {
 func runC22(c *core.Ctx) {
 	capabilityWalkComplete(c, "capability-walk-is-complete", 4)
 	negotiationIsPerSession(c)
+	openRejectClosesConnection(c)
+	latchFlagsOnlySet(c)
 	p := c.P
 	const pkt = "protocols/bgp/packet"
 	entry := c.MustFunc(srv + ".(*openSentState).msgReceived")
@@ -540,4 +544,51 @@ func capabilityStores(c *core.Ctx) {
 		})
 		c.Check(ok, "capability-needs-both-sides", hom.Name()+" negotiates the hold time as min(local, peer)", hom.Decl.Pos(), "the session hold time is not unconditionally computed as math.Min of the configured and the offered hold time")
 	}
+}
+
+// latchFlagsOnlySet: "several different Role capabilities were received" is remembered in a flag that the validation
+// reads after the whole capability list was processed.  Inside the capability walk the flag may only be SET: an
+// assignment of a computed value lets a later capability (one that repeats its predecessor) clear the conflict, and the
+// OPEN is accepted with the last role.
+func latchFlagsOnlySet(c *core.Ctx) {
+	const rule = "conflict-flag-is-a-latch"
+	p := c.P
+	fl := p.Field(srv, "openSentState", "multiplePeerRolesRcvd")
+	c.Check(fl != nil, rule, "openSentState.multiplePeerRolesRcvd", 0, "field not found")
+	if fl == nil {
+		return
+	}
+	n := 0
+	inWalk := map[*core.Fn]bool{}
+	if w := c.MustFunc(srv + ".(*openSentState).processOpenOptions"); w != nil {
+		for _, r := range p.ReachableFns(w) {
+			inWalk[r] = true
+		}
+	}
+	for _, f := range p.FuncsIn(srv) {
+		if f.Decl.Body == nil || isTestFn(p, f) {
+			continue
+		}
+		ast.Inspect(f.Decl.Body, func(x ast.Node) bool {
+			as, ok := x.(*ast.AssignStmt)
+			if !ok {
+				return true
+			}
+			for i, l := range as.Lhs {
+				if core.FieldOf(f.Pkg, l) != fl || i >= len(as.Rhs) {
+					continue
+				}
+				n++
+				v := core.ConstOf(f.Pkg, as.Rhs[i])
+				if v != nil && v.ExactString() == "false" && !inWalk[f] {
+					c.Check(true, rule, fmt.Sprintf("%s resets the flag outside the capability walk", f.Name()), as.Pos(), "")
+					continue
+				}
+				c.Check(v != nil && v.ExactString() == "true", rule, fmt.Sprintf("%s assignment #%d", f.Name(), n), as.Pos(),
+					"the role-conflict flag is assigned a computed value while the capabilities are walked: a later Role capability equal to its predecessor clears a conflict detected earlier, and an OPEN with differing roles is accepted")
+			}
+			return true
+		})
+	}
+	c.Check(n >= 1, rule, "assignments found", 0, "the role-conflict flag is never set")
 }
